@@ -605,6 +605,10 @@ func healthScenario(s *verifsim.Sim) {
 		idx := nt.Index()
 		s.Notef("%s: %s n%d %s x%d lat=%v", verifsim.TaskName(), evNames[e.kind], e.node, nt.String(), e.n, e.lat)
 		switch e.kind {
+		case eProbeFail, eProbeCanceled, eProbeSkip, eTrafficFail, eTrafficFailIgnorable, eTransactionalFail, eForced:
+			s.Fault(evNames[e.kind])
+		}
+		switch e.kind {
 		case eProbeOK, eProbeFail, eTrafficFail, eTransactionalFail, eForced, eTrafficOK:
 			if w.inflight[e.node] > 0 {
 				w.overlap[e.node] = true
@@ -761,6 +765,7 @@ func healthScenario(s *verifsim.Sim) {
 			}
 			// ---- reload hand-over: snapshot -> new generation -> restore -> floor
 			s.Probe("health.reload-handover")
+			s.Fault("reload-handover")
 			for w.depth > 0 {
 				componentdialer.EndReloadProxyFailureSuppression()
 				w.depth--
